@@ -2188,7 +2188,7 @@ gauss_cases(Ctx& c)
 static void
 metz_cases(Ctx& c)
 {
-  const int ncases = c.thorough ? 40 : 5;
+  const int ncases = c.thorough ? 40 : 8;
   // silence the constructor's printf of every kernel coefficient
   std::fflush(stdout);
   const int saved = dup(1);
@@ -2205,7 +2205,10 @@ metz_cases(Ctx& c)
       for (int q = 1; q <= 3; ++q)
         {
           sd[q] = static_cast<float>(r.range(1000, 4500)) / 1000.F;                     // voxel size (mm)
-          fw[q] = r.range(0, 9) == 0 ? 0.F : sd[q] * static_cast<float>(r.range(1200, 4000)) / 1000.F; // FWHM (mm)
+          // FWHM (mm): 1.2 .. 4 voxels; at power 0 half of the directions have a kernel narrower than 1.5 voxels, where build_metz
+          // samples the kernel 3 or more times per voxel and the band limit at the voxel Nyquist frequency is what keeps the sum at 1
+          const int ratio = (power0 && r.range(0, 1) == 0) ? r.range(1000, 1500) : r.range(1200, 4000);
+          fw[q] = r.range(0, 9) == 0 ? 0.F : sd[q] * static_cast<float>(ratio) / 1000.F;
           pw[q] = power0 ? 0.F : static_cast<float>(r.range(0, 3));
           mk_[q] = r.range(0, 2) == 0 ? r.range(3, 15) : -1;
           R[q - 1] = 20;
